@@ -62,6 +62,7 @@ func (fv *FV) readField(st *State, ref string, owner *types.Named, f *types.Var)
 		if inv := fv.typeInv(v.T, f.Type(), 1); inv != "true" {
 			fv.sess.fact(inv)
 		}
+		fv.liveRef(st, v)
 	}
 	return v
 }
@@ -872,12 +873,10 @@ func (fv *FV) evalAddrOf(st *State, x *ast.UnaryExpr) Val {
 }
 
 func (fv *FV) allocFrom(st *State, v Val, pe, pt types.Type) Val {
-	ref := fv.freshSort("new", "Int")
-	fv.sess.fact(fmt.Sprintf("(> %s alloc0)", ref.T))
-	for _, o := range fv.w.allocs[fv] {
-		fv.sess.fact(fmt.Sprintf("(not (= %s %s))", ref.T, o))
+	if fv.pure > 0 {
+		fv.unsupported("allocation in pure context")
 	}
-	fv.w.allocs[fv] = append(fv.w.allocs[fv], ref.T)
+	ref := Val{T: fv.bumpAlloc(st, "new"), S: "Int"}
 	ref.Go = pt
 	if n := namedOf(pe); n != nil {
 		if stt, ok := n.Underlying().(*types.Struct); ok && !isSyncType(n) {
@@ -917,13 +916,19 @@ func (fv *FV) evalBinary(st *State, x *ast.BinaryExpr) Val {
 		}
 		sub := st.clone()
 		sub.pc = fv.namePC(and(st.pc, g))
+		subPC0 := sub.pc
 		b := fv.eval(sub, x.Y)
 		// propagate heap/vars effects of rhs (calls): merge
-		if heapChanged(st, sub) {
+		if heapChanged(st, sub) || sub.pc != subPC0 {
 			other := st.clone()
 			other.pc = fv.namePC(and(st.pc, not(g)))
 			m := fv.merge([]*State{sub, other})
 			st.vars, st.heap = m.vars, m.heap
+			if sub.pc != subPC0 {
+				// the right operand contains an inlined call: execution continues
+				// only on the paths on which that call returned
+				st.pc = m.pc
+			}
 		}
 		if x.Op == token.LAND {
 			return Val{T: and(a.T, b.T), S: "Bool", Go: t}
@@ -994,11 +999,12 @@ func (fv *FV) evalIndex(st *State, x *ast.IndexExpr) Val {
 	case *types.Slice, *types.Array:
 		fv.safe(st, "idx", x, fmt.Sprintf("(and (<= 0 %s) (< %s (sq.len %s)))", idx.T, idx.T, cont.T))
 		et := elemType(u)
-		return Val{T: fmt.Sprintf("(select (sq.arr %s) %s)", cont.T, idx.T), S: fv.sess.sortOf(et), Go: et}
+		return fv.wellFormed(st, Val{T: fmt.Sprintf("(select (sq.arr %s) %s)", cont.T, idx.T), S: fv.sess.sortOf(et), Go: et})
 	case *types.Map:
 		idx = fv.convertTo(st, idx, u.Key())
 		z := fv.zero(u.Elem())
 		has := fmt.Sprintf("(select (mp.dom %s) %s)", cont.T, idx.T)
+		fv.wellFormed(st, Val{T: fmt.Sprintf("(select (mp.val %s) %s)", cont.T, idx.T), S: z.S, Go: u.Elem()})
 		return Val{T: ite(has, fmt.Sprintf("(select (mp.val %s) %s)", cont.T, idx.T), z.T), S: z.S, Go: u.Elem()}
 	case *types.Basic:
 		// string indexing
@@ -1156,6 +1162,9 @@ func (fv *FV) newRef() string {
 	if fv.pure > 0 {
 		return "1"
 	}
+	if fv.curState != nil {
+		return fv.bumpAlloc(fv.curState, "ref")
+	}
 	r := fv.sess.fresh("ref", "Int")
 	fv.sess.fact(fmt.Sprintf("(> %s alloc0)", r))
 	return r
@@ -1192,4 +1201,70 @@ func isSMTValue(v string) bool {
 		return true
 	}
 	return false
+}
+
+// wellFormed records the type invariant of a value read out of a container
+// (every Go value of a type satisfies it).
+func (fv *FV) wellFormed(st *State, v Val) Val {
+	if fv.pure > 0 || v.Go == nil {
+		return v
+	}
+	switch types.Unalias(v.Go).Underlying().(type) {
+	case *types.Basic:
+		if v.S != "Int" {
+			return v
+		}
+	}
+	if inv := fv.typeInv(v.T, v.Go, 0); inv != "true" {
+		fv.sess.fact(inv)
+	}
+	return v
+}
+
+// ---- allocation counter ----
+// $alloc is a monotone counter: every reference that exists is <= $alloc; a new
+// object or backing array gets a reference above it.
+
+func (fv *FV) allocCur(st *State) string {
+	if v, ok := st.heap["$alloc"]; ok {
+		return v.T
+	}
+	return "alloc0"
+}
+
+// bumpAlloc returns a fresh reference strictly above everything allocated so far.
+func (fv *FV) bumpAlloc(st *State, prefix string) string {
+	r := fv.sess.fresh(prefix, "Int")
+	fv.sess.fact(fmt.Sprintf("(> %s %s)", r, fv.allocCur(st)))
+	st.heap["$alloc"] = Val{T: r, S: "Int"}
+	return r
+}
+
+// advanceAlloc: an opaque step (callee, loop) may have allocated.
+func (fv *FV) advanceAlloc(st *State) {
+	if fv.pure > 0 {
+		return
+	}
+	r := fv.sess.fresh("alloc", "Int")
+	fv.sess.fact(fmt.Sprintf("(>= %s %s)", r, fv.allocCur(st)))
+	st.heap["$alloc"] = Val{T: r, S: "Int"}
+}
+
+// liveRef: a pointer/slice/map value obtained from existing state is not above $alloc.
+func (fv *FV) liveRef(st *State, v Val) {
+	if fv.pure > 0 || v.Go == nil {
+		return
+	}
+	switch types.Unalias(v.Go).Underlying().(type) {
+	case *types.Pointer, *types.Chan:
+		fv.sess.fact(fmt.Sprintf("(<= %s %s)", v.T, fv.allocCur(st)))
+	case *types.Slice:
+		fv.sess.fact(fmt.Sprintf("(<= (sq.ref %s) %s)", v.T, fv.allocCur(st)))
+		if sl, ok := types.Unalias(v.Go).Underlying().(*types.Slice); ok && isPointer(sl.Elem()) {
+			// pointers stored in an existing slice refer to existing objects
+			fv.sess.fact(fmt.Sprintf("(forall ((i!q Int)) (! (<= (select (sq.arr %s) i!q) %s) :pattern ((select (sq.arr %s) i!q))))", v.T, fv.allocCur(st), v.T))
+		}
+	case *types.Map:
+		fv.sess.fact(fmt.Sprintf("(<= (mp.ref %s) %s)", v.T, fv.allocCur(st)))
+	}
 }
